@@ -160,6 +160,11 @@ def run(label, spec, H0f, Vf, maxn, cut, patterns=None, hermitian=True):
         return M
     states_all = [s for _ in range(dim) for s in states]
     H0m = mat(H0); Vm = mat(V); E = np.diag(H0m).real
+    if label.startswith("charge qubit"):
+        # (the Fock matrices above come out of the library's own conversion; for this system the levels are also known in closed form)
+        km = [i for i, m_ in enumerate(spec) if m_[0] == 'l'][0]; ks = [i for i, m_ in enumerate(spec) if m_[0] == 's'][0]
+        closed = np.array([(s_[km] - 1 / 3) ** 2 + 1.5 * s_[ks] for s_ in states_all])
+        if np.abs(E - closed).max() > 1e-9: return [(0, float(np.abs(E - closed).max()), 0.0, len(E))]
     elim = np.abs(E.reshape(-1, 1) - E) > 1e-9
     if label.startswith("generated") and (~elim).sum() > len(E): return None       # two Fock states share an unperturbed energy: outside the quantifier
     if label.startswith(("matrix-valued: dispersive", "Floquet-like")): assert (~elim).sum() == len(E), "the fixed system has two equal Fock levels"
